@@ -10,24 +10,88 @@ BASE_NOTE = ("Trusted: Coq 8.16.1 kernel + vm_compute (no native_compute); Print
              "context unless stated); ExtrOcamlBasic extraction + ocaml/driver.ml; tools/translate.py; the Rust harness and generators; "
              "rustc/cargo. The model is hand-written and tied to /repo by the correspondence run of every check.")
 
+def claim(text, ref, note_extra="", technique="Coq proof about the executable model + model/implementation correspondence"):
+    return dict(text=text, ref=ref, note=BASE_NOTE + (" " + note_extra if note_extra else ""), technique=technique)
+
+
 CLAIMS = {
-    "C01": dict(
-        text=("Theorems (Props/C01.v): for every core tree (any nesting), document, registry and incoming context offset the model of "
-              "interpreter.rs returns exactly the value of an independent denotational semantics (Spec/Semantics.v: comprehension style, "
-              "closed-form slices), by induction over unbounded trees; plus the clauses the property names (null for absent/wrongly-typed "
-              "subjects, nulls dropped, one-level flatten, short-circuit, truthiness with 0 truthy, ascending key order, last duplicate wins). "
-              "Correspondence: random core trees x random documents through Expression::search on hand-built ASTs, compliance expressions x "
-              "documents end to end; every evalast case is also compared with the extracted specification (spec oracle)."),
-        ref="5 (C01), 4.2", note=BASE_NOTE + " Unmodelled: slicing an array of 2^31 or more elements. Comparison nodes delegate to C10's model.",
-        technique="Coq proof (interpreter model = denotational semantics) + model/spec/implementation correspondence"),
-    "C07": dict(
-        text=("Theorems (Props/C07.v, all inputs, no bound on array length below 2^31 or on the 32-bit triples): the model of "
-              "variable.rs::slice/adjust_slice_endpoint and of the Index arm equals the closed-form Python/JMESPath slice rule; "
-              "never traps or runs out of fuel; the closed form is equivalent to the membership characterisation. "
-              "Correspondence: exhaustive small-scope + random i32 triples, model (extracted OCaml, cross-checked by vm_compute) vs "
-              "Variable::slice/get_index/get_negative_index in debug and release builds, plus Python's own list slicing as a second oracle."),
-        ref="5 (C07), 4.3", note=BASE_NOTE + " Assumes array length < 2^31.",
-        technique="Coq proof (model = closed-form slice spec) + model/implementation correspondence"),
+    "C01": claim("Theorems (Props/C01.v): for every core tree (any nesting), document, registry and incoming context offset the model of "
+                 "interpreter.rs returns exactly the value of an independent denotational semantics (Spec/Semantics.v), by induction over "
+                 "unbounded trees; plus the clauses the property names (null for absent/wrongly-typed subjects, nulls dropped, one-level flatten, "
+                 "short-circuit, truthiness with 0 truthy, ascending key order, last duplicate wins). Correspondence: random core trees x documents "
+                 "on hand-built ASTs, compliance expressions x documents end to end; every evalast case also against the extracted specification.",
+                 "5 (C01), 4.2", "Unmodelled: slicing an array of 2^31 or more elements. Comparison nodes delegate to C10's model.",
+                 "Coq proof (interpreter model = denotational semantics) + model/spec/implementation correspondence"),
+    "C02": claim("Theorems (Props/C02.v): the sorting routine behind sort/sort_by is a permutation, ascending on total preorders and stable; "
+                 "max_by/min_by return an input element; merge is right-biased; length/reverse on code points; keys/values pairwise; to_number is "
+                 "number-or-null; avg [] = null; map keeps length and evaluates once per element in order. The other builtins (numeric, string "
+                 "predicates, join, to_string incl. float printing, ...) are decided by correspondence of the 26 modelled bodies with "
+                 "Function::evaluate on seeded well-typed tuples (arrays > 20 elements with duplicate keys, several Unicode planes).",
+                 "5 (C02)", "Partial: number instance of the total-preorder premises and the float-printing model (zmij) are validated, not proved."),
+    "C03": claim("Theorems (Props/C03.v): see level text in DESIGN.md 5 (C03): the generated binding-power table has the documented order; the "
+                 "reference parser (same functions with the non-sentence branches closed) is the sentence oracle; deviations of the code from it are "
+                 "listed known findings. Correspondence: parse trees and error positions of jmespath::parse vs the model on grammar-directed "
+                 "sentences, one-token and one-character near misses, token soup, lexical edge cases; model vs reference parser on the same stream.",
+                 "5 (C03), 2.5, 4.1", "Partial: soundness/completeness of the reference parser w.r.t. the CST grammar is not machine-checked yet."),
+    "C04": claim("Theorems (Props/C04.v): the binding-power table extracted from lexer.rs on this run satisfies the documented order and the "
+                 "projection-stop threshold (any change of relative order breaks this obligation). Correspondence: every ordered pair and sampled "
+                 "triples of infix/prefix/postfix operators around atomic operands, through parse (trees) and search (results), model vs implementation "
+                 "and model vs reference parser.", "5 (C04), 4.1.1", "Partial as C03."),
+    "C05": claim("Theorems (Props/C05.v): slices, negative indexes and signature validation return for all inputs (no overflow, no out-of-bounds "
+                 "index, no loop); evaluation of core trees returns within fuel linear in the tree height for every document. Correspondence: "
+                 "hostile inputs through compile+search in child processes with a wall-clock limit, debug and release builds.",
+                 "5 (C05)", "Partial: stack exhaustion (deep nesting) and the self-applied expression reference are recorded known findings; lexer/"
+                 "parser/builtin bodies are covered by correspondence."),
+    "C06": claim("Theorems (Props/C06.v): the signature table extracted from functions.rs/runtime.rs on this run means the specification's table "
+                 "(sound type-equivalence check); is_valid = specified type membership; validate = declarative decision (arity first, first "
+                 "ill-typed position); every builtin validates first and afterwards never reports a signature error of its own. Correspondence: "
+                 "decision table over 26 builtins x arities x 22 type classes.", "5 (C06)", "Known finding: the code's `any` admits expression references."),
+    "C07": claim("Theorems (Props/C07.v, all inputs): the model of variable.rs::slice/adjust_slice_endpoint and of the Index arm equals the "
+                 "closed-form Python/JMESPath slice rule; never traps or runs out of fuel; closed form = membership characterisation. "
+                 "Correspondence: exhaustive small scope + random i32 triples, debug and release, plus Python's own list slicing as a second oracle.",
+                 "5 (C07), 4.3", "Assumes array length < 2^31.", "Coq proof (model = closed-form slice spec) + model/implementation correspondence"),
+    "C08": claim("Theorems (Props/C08.v): identity query returns the document; objects keep key order and the last duplicate; a library value "
+                 "survives the serializer unchanged. Correspondence with an independent Python oracle computed from the JSON text: exact integers, "
+                 "exact doubles in the 15-digit/+-22 class, <= 2 ulp otherwise, strings, order, duplicates, re-parse equal, Value round trips.",
+                 "5 (C08)", "Partial: serde_json's number reader and zmij's printer are third-party code, modelled exactly and validated, not proved."),
+    "C09": claim("Correspondence with an independent expectation computed in Python (raw-string, backtick-literal and quoted-identifier round "
+                 "trips; exhaustive delimiter/backslash juxtapositions up to length 4/6); the lexer model is the transcription of lexer.rs.",
+                 "5 (C09)", "Partial: no theorem closed yet for this property (the round-trip lemmas are stated in DESIGN.md as _todo).",
+                 "model/implementation correspondence + independent round-trip oracle (theorems pending)"),
+    "C10": claim("Theorems (Props/C10.v): == is structural (numbers by tolerant double equality, arrays element-wise, objects by keys and members, "
+                 "type-gated), reflexive, symmetric (incl. IEEE lemmas on SpecFloat); != is its negation; ordering is boolean iff both numbers, is the "
+                 "exact IEEE order; trichotomy and <= decomposition for well-separated numbers. Correspondence + the laws evaluated on the implementation.",
+                 "5 (C10), 4.4"),
+    "C11": claim("Theorems (Props/C11.v): for all trees (function calls included), registries, fuel and offsets: pipe/sub-expression composition, "
+                 "projections = filter non-null of the per-element results in order, filter = per-element predicate, multi-select = tuple/record of "
+                 "member results, !/&&/|| truth tables. Metamorphic check of the same laws on the implementation + correspondence.", "5 (C11)"),
+    "C12": claim("Theorems (Props/C12.v): line/column = zero-based line and character column of any character-boundary offset; arity/type/"
+                 "unknown-function errors are located at the call's parenthesis, invalid-slice inside the slice; a successful evaluation restores the "
+                 "error cursor. Correspondence on class, kind, offset, line, column, payload of failing expressions and (expression, document) pairs.",
+                 "5 (C12)", "Partial: compile-error classification and the rendered message are decided by correspondence."),
+    "C13": claim("Theorems (Props/C13.v) over the history model: compile deterministic; a search observes only its handle's text, its runtime's "
+                 "registry and its document; searches leave no trace; clones and re-used expressions behave like fresh ones. Correspondence on seeded "
+                 "histories + the purity law evaluated on the implementation + input value unchanged.", "5 (C13)"),
+    "C14": claim("Theorems (Props/C14.v): the library's Serializer and serde_json's Value serializer (both modelled from source) agree on every "
+                 "string-keyed value of serde's data model; non-finite floats -> null; the four enum shapes; a library value round-trips. Decoding: "
+                 "30 Rust target types x fitting and near-miss values, T::deserialize(Variable) vs serde_json::from_value.",
+                 "5 (C14)", "Partial: the decoding half is decided against serde_json itself (third-party oracle), not modelled."),
+    "C15": claim("Theorems (Props/C15.v): lookup after any register/deregister/register-builtins history = latest live binding (custom functions "
+                 "shadow builtins, fresh runtime empty, the 26 builtin names); call protocol (arguments left to right, exprefs unevaluated, lookup after "
+                 "arguments, unknown-function at the call); custom functions receive the evaluated arguments and are validated first. "
+                 "Correspondence on seeded registry histories with echoing closures.", "5 (C15)"),
+    "C16": claim("Theorems (Props/C16.v): source facts re-extracted on this run (Arc under sync, Function: Send+Sync, lazy_static default runtime, "
+                 "no interior mutability/unsafe/static mut/stray Rc); in the interleaving model every schedule gives each thread the sequential "
+                 "results and initialises the default runtime once. The sync build instantiates Send+Sync; barrier-released threads compile and "
+                 "search shared expressions/values incl. the first-use race.", "5 (C16)",
+                 "Partial: memory-model data races, Arc and Once internals are outside the model."),
+    "C17": claim("Theorems (Props/C17.v): the specialised conversions agree with the generic serde path on every JSON-representable input. The "
+                 "same case file runs through four builds (default, sync, nightly specialized, both) and is compared pairwise and with the model.",
+                 "5 (C17)", "Partial: feature invisibility of sync is decided by running the builds. Known finding: non-finite floats differ."),
+    "C18": claim("Theorems (Props/C18.v) about the jp model: success prints the pretty JSON (raw string with --unquoted) + newline and exits 0; "
+                 "--unquoted only affects strings; --ast reads no input; every failure exits 1 with empty stdout. The real binary is built from "
+                 "/repo/jmespath-cli on every run and compared with the model and with the library's own tree dump.", "5 (C18)",
+                 "Partial: clap's argument parsing, EPIPE and exotic file-system errors are not modelled."),
 }
 
 checks = []
